@@ -2,11 +2,59 @@ PROP = dict(
     id="C17",
     lean_modules=["TongoProofs.C17"],
     gen=["Shards", "Crc16Table"],
-    spec_ops=(),
+    # ops whose model answer IS the specification (the property speaks about these absolute values and the model is
+    # proved to satisfy the property theorems): printers of every form, shard algebra, the substitution count (must be 0).
+    # The parsers on malformed input (`*.from_*`, `addr.parse`, `adnl.parse`, `prim.*`) are exact-correspondence only.
+    spec_ops=("shard.", "addr.raw", "addr.human", "addr.json", "addr.tl", "addr.tlb", "addr.subst", "addr.anycast",
+              "adnl.to32"),
     rule="shards: random prefix length 0..63 (boundaries over-weighted) x random prefix; addresses inside/outside the "
-         "shard incl. ones differing in the last prefix bit; related (ancestor/descendant) and unrelated shard pairs. "
-         "non-trivial = distinct (prefix length, prefix) pair",
-    trusted_base=["hand model lean/TongoModel/Shard.lean tied to ton/shards.go, ton/block.go by line-by-line correspondence on every run"],
-    assumptions=[],
+         "shard incl. ones differing in the last prefix bit; related (ancestor/descendant) and unrelated shard pairs; "
+         "non-trivial = distinct (prefix length, prefix) pair. account ids: workchains -128..127 (all flag combinations x "
+         "both alphabets) and int32 boundaries/random for raw, JSON, TL; addresses zero / all-ones / leading zeros / "
+         "random; every id goes through every form on Go alone (go.addr.roundtrip) and printer+parser vs model; "
+         "non-trivial = distinct (workchain, address). substitutions: all 48 x 63 single-digit substitutions of N "
+         "distinct friendly strings (quick N=200, thorough N=2000), each must be rejected; non-trivial = distinct "
+         "string. malformed stream: fixed list (empty, no colon, short/odd/long/upper-case hex, signs, leading zeros, "
+         "int32 overflow, two colons, newlines, wrong length, padding) + 12 mutation kinds applied to valid raw, "
+         "friendly, base64, base32 and ADNL strings. ADNL: random addresses, with/without .adnl, upper case, same-length "
+         "corruptions incl. '=' padding; non-trivial = distinct address.",
+    trusted_base=[
+        "translator X4 harness/cmd/extract/intfuns.go (Go integer functions -> BitVec definitions) and the Go-semantics "
+        "prelude lean/TongoModel/GoInt.lean",
+        "hand models lean/TongoModel/Shard.lean, Address.lean, Prim/Base64.lean, Prim/Base32.lean, Prim/Crc16.lean tied to "
+        "ton/account.go, liteclient/adnl.go and Go's encoding/base64, encoding/base32, encoding/hex, strconv, fmt by "
+        "line-by-line correspondence on every run",
+        "third-party github.com/snksoft/crc (used by AccountIDFromBase64Url) is compared with utils.Crc16 and the model on "
+        "every run (prim.crc16, prim.crc16x, go.crc) but not translated",
+    ],
+    assumptions=[
+        "strings are modelled as byte lists; the model answers err for any input containing a byte >= 0x80 where Go "
+        "would run rune-aware code (strings.Map, strings.ToUpper); the generators only produce such bytes in positions "
+        "where Go also rejects",
+        "JSON: UnmarshalJSON is modelled for documents of the form \"<printable ASCII without quote and backslash>\" "
+        "(no escapes, no surrounding whitespace) plus the malformed classes generated; encoding/json itself is not modelled",
+        "TL-B: the bit-level parser models addr_none and addr_std (with anycast); addr_extern / addr_var belong to the "
+        "TL-B codec properties (C03/C04)",
+        "MatchAccountID is modelled on the first 8 address bytes read big-endian (the regenerated definition takes that "
+        "uint64 as its input); the byte read itself is covered by the correspondence (addresses with dirty lower bytes)",
+    ],
     partial=[],
+    level_text=(
+        "Theorems for ALL inputs (kernel-checked, no bv_decide/native_decide): shard_roundtrip, match_is_prefix "
+        "(prefix lengths 0..63), match_block (+ zero shard), parent_child_inverse, child_parent_inverse, "
+        "child_extends_prefix, convert_shard_ident (0..63), anycast_rewrite (depths 1..30) on 64/32-bit wrap-around "
+        "arithmetic; raw_roundtrip (all int32 x 256-bit), raw_short_hex (zero-fill), human_roundtrip (int8 x 4 flag "
+        "combinations x both alphabets), human/tlb_workchain_truncated, parse_dispatch, json_roundtrip, tl_roundtrip, "
+        "tlb_roundtrip, tlb_bits_roundtrip, adnl_base32_roundtrip, and single_char_rejected (every 48-character valid "
+        "string x 48 positions x 63 other digit values is rejected) via CRC linearity. Tie: the integer code of "
+        "ton/shards.go, ton/block.go, the anycast arithmetic of ton/account.go, utils.Crc16/Crc16String step and the "
+        "256-entry TABLE are REGENERATED from the Go source on every run (X4) and proved equal to the hand model "
+        "(gen_* theorems, the table by decide over 256 entries); the string codecs are hand models checked against the "
+        "real code through the public API on every run (exact answers incl. err on a malformed stream), plus direct "
+        "oracles on Go alone for every round trip, every substitution, shard algebra and the three CRC implementations."
+    ),
+    level_note="trusted: Lean kernel, translator X4 + GoInt prelude, the hand models of Go's standard-library codecs "
+               "(validated differentially on every run), harness dumpers, check.py diff",
+    technique="Lean 4 proofs (bit-level extensionality, GF(2)-linearity of the CRC register, finite decide over tables) + "
+              "source-to-Lean translation of integer code + differential correspondence",
 )
